@@ -112,6 +112,13 @@ func Start(t *testing.T, prop string) *Run {
 			r.scale = v
 		}
 	}
+	if fp := os.Getenv("VERIF_FAILPOINTS"); fp != "" {
+		if len(fp) > 400 {
+			fp = fp[:400] + "…"
+		}
+		r.extra["failpoints_armed"] = fp
+		r.extra["failpoints_armed_count"] = strings.Count(os.Getenv("VERIF_FAILPOINTS"), "=")
+	}
 	_ = os.MkdirAll(r.outDir, 0o755)
 	_ = os.MkdirAll(r.replayDir, 0o755)
 	f, err := os.OpenFile(filepath.Join(r.outDir, "cases.log"), os.O_CREATE|os.O_WRONLY|os.O_APPEND, 0o644)
